@@ -2314,6 +2314,17 @@ mod srvlevel {
         };
         // `stop=f|g` (kind=pending): the second connection is queued at the worker (its service is not ready) when the server is
         // stopped: it is released — closed, never served, also when the service becomes ready afterwards (C01, C06)
+        // `listeners=N at=K`: the server has N listeners (each with a service of its own; all but one are never connected to);
+        // the gated service is the one of listener K (its token and its factory index are K): when it fails its readiness
+        // check it is re-created from ITS OWN factory, whatever its index
+        let (listeners, at) = match (kv(&ws, "listeners"), kv(&ws, "at")) {
+            (None, None) => (1usize, 0usize),
+            (Some(n), Some(k)) => match (super::num(n), super::num(k)) {
+                (Some(n), Some(k)) if k < n && n <= 400 => (n, k),
+                _ => return (line.to_string(), "bad-op".into(), vec![]),
+            },
+            _ => return (line.to_string(), "bad-op".into(), vec![]),
+        };
         let stop_mode = match kv(&ws, "stop") {
             None => None,
             Some("f") if !fail => Some(false),
@@ -2329,23 +2340,35 @@ mod srvlevel {
             }
             let sh = shared.clone();
             let (handle, addr, srv_done) = match host_server(move || {
-                let lst = std::net::TcpListener::bind("127.0.0.1:0")?;
-                let addr = lst.local_addr()?;
-                let srv = actix_server::Server::build()
-                    .workers(1)
-                    .disable_signals()
-                    .listen("gated", lst, move || {
+                let mut b = actix_server::Server::build().workers(1).disable_signals();
+                let mut addr = None;
+                for i in 0..listeners {
+                    let lst = std::net::TcpListener::bind("127.0.0.1:0")?;
+                    if i == at {
+                        addr = Some(lst.local_addr()?);
                         let sh = sh.clone();
-                        actix_service::fn_factory(move || {
+                        b = b.listen(format!("gated-{i}"), lst, move || {
                             let sh = sh.clone();
-                            async move {
-                                let id = sh.created.fetch_add(1, Ordering::SeqCst) + 1;
-                                Ok::<_, ()>(GatedService { id, first: std::cell::Cell::new(true), shared: sh })
-                            }
-                        })
-                    })?
-                    .run();
-                Ok((srv, addr))
+                            actix_service::fn_factory(move || {
+                                let sh = sh.clone();
+                                async move {
+                                    let id = sh.created.fetch_add(1, Ordering::SeqCst) + 1;
+                                    Ok::<_, ()>(GatedService { id, first: std::cell::Cell::new(true), shared: sh })
+                                }
+                            })
+                        })?;
+                    } else {
+                        // a listener nobody connects to; its service says so if it is ever called
+                        b = b.listen(format!("other-{i}"), lst, move || {
+                            actix_service::fn_service(move |mut io: actix_rt::net::TcpStream| async move {
+                                use tokio::io::AsyncWriteExt;
+                                let _ = io.write_all(b"x").await;
+                                Ok::<_, ()>(())
+                            })
+                        })?;
+                    }
+                }
+                Ok((b.run(), addr.unwrap()))
             }) {
                 Ok(x) => x,
                 Err(e) => return if is_port_error(&e) { "skipped".to_string() } else { format!("setup-error {e}") },
@@ -3202,7 +3225,7 @@ mod srvlevel {
                 }
                 if got < workers {
                     fails.push(format!(
-                        "[C08,C03] after {faults} worker(s) had died and been replaced, only {got} of {workers} connections opened at the same time were answered within 8 s{}: a replacement is not in the rotation under an index of its own",
+                        "[C08,C03,C04,C02] after {faults} worker(s) had died and been replaced, only {got} of {workers} connections opened at the same time were answered within 8 s{}: a replacement is not in the rotation under an index of its own (an idle worker is skipped while connections wait)",
                         limit.map_or(String::new(), |l| format!("; every worker may hold {l}")),
                     ));
                 }
@@ -3995,7 +4018,12 @@ mod gen {
         }
         if prop == "C02" {
             // only what C02 (and C03/C04) need from this engine: the notifications the REAL worker pushes into the accept
-            // thread's waker queue — a worker at / around its limit whose service fails its readiness check and is rebuilt
+            // thread's waker queue — a worker at / around its limit whose service fails its readiness check and is rebuilt;
+            // and (real Server) two workers that die one after the other and are replaced: afterwards every worker takes its
+            // share and none more than the limit (each replacement has the index — the availability bit — of the worker it replaces)
+            writeln!(w, "case srvlevel n=1 timeout=0").unwrap();
+            writeln!(w, "fault fp limit=1 faults=2 pair=1").unwrap();
+            writeln!(w, "fault fp4 limit=2 faults=2 pair=1").unwrap();
             let mut k = 0;
             for limit in 1..=3usize {
                 for m in (limit.saturating_sub(1))..=(limit + 1) {
@@ -4041,6 +4069,9 @@ mod gen {
             writeln!(w, "gate g0 kind=pending").unwrap();
             writeln!(w, "gate g1 kind=fail").unwrap();
             writeln!(w, "gate g2 kind=fail2").unwrap();
+            // more than 256 listeners on the worker: the failing service is no. 256 / no. 300 — re-created from its own factory
+            writeln!(w, "gate g3 kind=fail listeners=257 at=256").unwrap();
+            writeln!(w, "gate g4 kind=fail2 listeners=301 at=300").unwrap();
             writeln!(w, "gate gs kind=pending stop=f").unwrap();
             writeln!(w, "fault f0").unwrap();
             writeln!(w, "gate bad kind=x").unwrap();
